@@ -124,8 +124,13 @@ class Scheduler:
         return lab
 
     # -- the loop ---------------------------------------------------------------
-    def drive_until(self, cond, what):
-        """Run scheduler steps until cond() holds (and the schedule returns to main)."""
+    def drive_until(self, cond, what, timeout=None):
+        """Run scheduler steps until cond() holds (and the schedule returns to main).
+
+        timeout: the caller waits with a time limit.  There is no clock on this
+        path; a limit can only fire while the delayed-worker fault (a stall) is
+        holding back a worker that has unfinished work - then 'timeout' is one
+        more action the schedule may choose."""
         if self.in_worker:
             raise HarnessError("pool driven from inside a simulated worker")
         while True:
@@ -152,6 +157,8 @@ class Scheduler:
                 enabled = unstalled
             if satisfied:
                 enabled.append(("main", None))
+            elif timeout is not None and any(w.alive and w.task is not None and w.ordinal in now_stalled for w in self.workers):
+                enabled.append(("timeout", None))
             if not enabled:
                 raise Violation("liveness", "deadlock", f"main thread waits for {what} but no simulated process can move", {})
             enabled.sort(key=lambda e: e[0])
@@ -163,6 +170,10 @@ class Scheduler:
                 self.stats["main"] += 1
                 self.log.add(self.step, "main")
                 return
+            if lab == "timeout":
+                self.stats["timeouts_fired"] = self.stats.get("timeouts_fired", 0) + 1
+                self.log.add(self.step, "timeout")
+                raise cf.TimeoutError()
             kind, wo = lab.split(":")
             w = self.workers[int(wo)]
             if kind == "dispatch":
@@ -204,12 +215,12 @@ class SimFuture(Future):
 
     def result(self, timeout=None):
         if not self.done():
-            self._sim_pool._sched.drive_until(self.done, "a future's result")
+            self._sim_pool._sched.drive_until(self.done, "a future's result", timeout)
         return super().result(0)
 
     def exception(self, timeout=None):
         if not self.done():
-            self._sim_pool._sched.drive_until(self.done, "a future's exception")
+            self._sim_pool._sched.drive_until(self.done, "a future's exception", timeout)
         return super().exception(0)
 
 
@@ -445,7 +456,7 @@ class SimPool(cf.Executor):
     def map(self, fn, *iterables, timeout=None, chunksize=1):
         if chunksize < 1:
             raise ValueError("chunksize must be >= 1.")
-        results = super().map(partial(cfp._process_chunk, fn), cfp._get_chunks(*iterables, chunksize=chunksize), timeout=None)
+        results = super().map(partial(cfp._process_chunk, fn), cfp._get_chunks(*iterables, chunksize=chunksize), timeout=timeout)
         return cfp._chain_from_iterable_of_lists(results)
 
     def shutdown(self, wait=True, *, cancel_futures=False):
@@ -501,7 +512,7 @@ def sim_as_completed(fs, timeout=None):
 
     while pending:
         if not any(f.done() for f in pending):
-            sched.drive_until(lambda: any(f.done() for f in pending), "as_completed")
+            sched.drive_until(lambda: any(f.done() for f in pending), "as_completed", timeout)
         pos = stamp()
         ready = sorted((f for f in pending if f.done()), key=lambda f: pos.get(f, -1))
         for f in ready:
@@ -525,7 +536,10 @@ def sim_wait(fs, timeout=None, return_when=cf.ALL_COMPLETED):
         return len(done) == len(fs)
 
     if not cond():
-        sched.drive_until(cond, "wait")
+        try:
+            sched.drive_until(cond, "wait", timeout)
+        except cf.TimeoutError:
+            pass  # wait() returns what is done so far
     done = {f for f in fs if f.done()}
     return cf._base.DoneAndNotDoneFutures(done, set(fs) - done)
 
